@@ -121,12 +121,14 @@ Print Assumptions C09_total_path_repeated.
 Theorem C09_oracles_ok :
   (forall d, d <> [] -> In (choose_first d) (map fst d)) /\
   (forall d, d <> [] -> In (choose_last d) (map fst d)) /\
+  (forall d, d <> [] -> In (choose_min d) (map fst d)) /\
   (forall u k k', harness_dum u k = harness_dum u k' -> k = k').
 Proof.
-  split; [|split].
+  split; [|split; [|split]].
   - intros [|kv d] H; [congruence|]. left. reflexivity.
   - intros d H. unfold choose_last. apply in_map. destruct (exists_last H) as (l & a & ->).
     rewrite last_last. apply in_app_iff. right. left. reflexivity.
+  - exact choose_min_mem.
   - unfold harness_dum. intros; lia.
 Qed.
 Print Assumptions C09_oracles_ok.
